@@ -198,7 +198,7 @@ def r1(ctx):
     loops = chromosome_loops(ctx, run)
     for name in ("gtchange_list_filename", "recombination_list_filename", "read_list_filename"):
         opens = [c for c in ctx.prog.calls_in(run.node) if name in {x.id for x in ast.walk(c) if isinstance(x, ast.Name)} and (u(c.func) in ("open", "ReadList") or u(c.func).endswith("enter_context"))]
-        ok = bool(opens) and all(not enclosing_loops(c, run.node) for c in opens)
+        ok = bool(opens) and any(not enclosing_loops(c, run.node) for c in opens)
         ctx.ob(run.qual, "opened-once:%s" % name, ok, run.loc(opens[0]) if opens else run.loc(), "the file for %s is opened in run_whatshap outside every loop" % name if ok else "no open of %s outside the loops of run_whatshap" % name)
 
 
@@ -276,7 +276,6 @@ def r3(ctx):
     w = ctx.func(W)
     cfg = ctx.cfg(w)
     gt_stores = [s for s in util.store_sites(w.node) if s.kind == "subscript" and util.const_key(s.target) == "GT"]
-    ctx.require(len(gt_stores) >= 1, "no GT store in PhasedVcfWriter.write")
     for s in gt_stores:
         ga = guard_atoms(cfg, cfg.node_of(s.stmt))
         differs = [t for t, p in ga if " == " in t and not p and "gt_type" in t]
